@@ -29,7 +29,13 @@ func fwd(tok string, shape int) string {
 		v = "[" + tok + "]"
 	}
 	q := `"` + v + `"`
-	switch shape % 5 {
+	switch shape % 8 {
+	case 5:
+		return "a=1;b=2;c=3;for=" + q // exactly the fourth parameter, last
+	case 6:
+		return "a=1;b=2;c=3;for=" + q + ";e=5" // the fourth parameter, more follow
+	case 7:
+		return "by=203.0.113.9;host=h;proto=https;for=" + q + ";" // the fourth parameter, a bare ';' follows
 	case 0:
 		return "for=" + q
 	case 1:
@@ -220,7 +226,7 @@ func runLists(c *mc.Ctx, r *mc.Result) {
 		maxEntries = 3
 	}
 	rds := resolvers()
-	r.Bounds["lists"] = fmt.Sprintf("all header lists of <=%d entries over a %d-token alphabet, split over 1 or 2 header lines (<=3 entries per line), as X-Forwarded-For and as Forwarded (5 element shapes) x %d resolvers; for the rightmost strategies every list that selects an entry is re-run behind %d attacker prefixes (same line and extra line)", maxEntries, len(tokens), len(rds), len(attackerPrefixes))
+	r.Bounds["lists"] = fmt.Sprintf("all header lists of <=%d entries over a %d-token alphabet, split over 1 or 2 header lines (<=3 entries per line), as X-Forwarded-For and as Forwarded (8 element shapes) x %d resolvers; for the rightmost strategies every list that selects an entry is re-run behind %d attacker prefixes (same line and extra line)", maxEntries, len(tokens), len(rds), len(attackerPrefixes))
 	type built struct{ x, f fox.ClientIPResolver }
 	bs := make([]built, len(rds))
 	for i, rd := range rds {
